@@ -68,6 +68,7 @@ type ATCol struct {
 }
 
 type ATSchema struct {
+	Auto    bool // the (single, integer) key column is AUTO_INCREMENT
 	Collide bool
 	Table   string
 	Cols    []ATCol
@@ -95,6 +96,9 @@ func (s *ATSchema) Create(e *memdb.Engine) {
 	def := memdb.TableDef{Name: s.Table}
 	for _, c := range s.Cols {
 		col := memdb.Column{Name: c.Name, Nullable: c.Nullable}
+		if s.Auto && len(def.Cols) == 0 {
+			col.AutoInc = true
+		}
 		if c.Typ == 'i' {
 			col.Type = memdb.TBigInt
 		} else {
@@ -144,6 +148,9 @@ type ATOrd struct {
 
 type ATStmt struct {
 	Kind byte // U D X Y(upsert)
+	// AutoForm: how an INSERT into a table with an AUTO_INCREMENT key leaves the key to the database:
+	// 'o' column omitted, 'n' NULL, 'd' DEFAULT (0: the key is given)
+	AutoForm byte
 	// ORDER BY … LIMIT of an UPDATE / DELETE (none when both are zero); tokens W / K
 	Order  []ATOrd
 	Limit  int
@@ -309,9 +316,12 @@ func (s *ATStmt) Render(sc *ATSchema) (string, []interface{}, string) {
 		}
 		o.cond(sc, s.Where)
 	case 'X', 'Y':
-		names := make([]string, len(sc.Cols))
+		var names []string
 		for i, c := range sc.Cols {
-			names[i] = c.Name
+			if i == 0 && s.AutoForm == 'o' {
+				continue // the auto-increment key column is left out of the column list
+			}
+			names = append(names, c.Name)
 		}
 		o.sb.WriteString("INSERT INTO " + sc.Table + " (" + strings.Join(names, ", ") + ") VALUES ")
 		fmt.Fprintf(&o.tok, "%c%d:%d:", s.Kind, len(s.Rows), len(sc.Cols))
@@ -320,10 +330,26 @@ func (s *ATStmt) Render(sc *ATSchema) (string, []interface{}, string) {
 				o.sb.WriteString(", ")
 			}
 			o.sb.WriteString("(")
+			first := true
 			for k, e := range row {
-				if k > 0 {
+				if k == 0 && s.AutoForm != 0 {
+					// the database assigns the key: column omitted, NULL or DEFAULT
+					o.tok.WriteString("lA.")
+					switch s.AutoForm {
+					case 'n':
+						o.sb.WriteString("NULL")
+					case 'd':
+						o.sb.WriteString("DEFAULT")
+					default:
+						continue
+					}
+					first = false
+					continue
+				}
+				if !first {
 					o.sb.WriteString(", ")
 				}
+				first = false
 				o.expr(sc, e)
 			}
 			o.sb.WriteString(")")
@@ -387,6 +413,7 @@ type ATGenOpts struct {
 	PKUpdates       bool      // UPDATE statements that name a primary-key column
 	Upserts         bool      // INSERT … ON DUPLICATE KEY UPDATE statements
 	OrderLimit      bool      // UPDATE / DELETE … ORDER BY … LIMIT n
+	AutoInc         bool      // single integer key with AUTO_INCREMENT; INSERTs leave the key to the database
 	Existing        [][]ATVal // the initial rows (for statements aimed at existing keys)
 	ContinueOnError bool      // explicit transactions may ignore a failing INSERT and commit
 	BigInts         bool      // integer columns cluster at one large magnitude
@@ -419,6 +446,11 @@ func genSchema(r *Rng, table string, o ATGenOpts) *ATSchema {
 		sc.Cols[0].Typ = 's' // a character key
 	}
 	sc.PK = []int{0}
+	if o.AutoInc {
+		sc.Cols[0].Typ = 'i'
+		sc.Auto = true
+		return sc
+	}
 	sc.Collide = o.CollideKeys
 	if n >= 3 && (r.Chance(30) || o.CollideKeys) {
 		sc.PK = []int{0, 1} // composite key
@@ -478,6 +510,9 @@ func genRows(r *Rng, sc *ATSchema, n int) [][]ATVal {
 				if sc.Cols[p].Typ == 's' {
 					row[p] = ATVal{K: 's', S: "k"}
 				}
+			}
+			if sc.Auto && row[p].K == 'i' && row[p].I == 0 {
+				row[p].I = 20 // 0 in an AUTO_INCREMENT column means "generate"
 			}
 			if row[p].K == 's' && row[p].S == "" {
 				row[p].S = "e" // an empty key would be indistinguishable from "no key" in the lock-key text
@@ -685,6 +720,12 @@ func genInsert(r *Rng, sc *ATSchema, taken map[string]bool, o ATGenOpts) *ATStmt
 		n = 2 + r.Intn(2)
 	}
 	useArgs := r.Chance(60)
+	if sc.Auto && r.Chance(70) {
+		st.AutoForm = []byte{'o', 'n', 'o', 'n', 'o', 'n', 'd'}[r.Intn(7)]
+		if st.AutoForm == 'd' {
+			st.Classes = append(st.Classes, "insert_default_keyword")
+		}
+	}
 	for i := 0; i < n; i++ {
 		var row []ATVal
 		for tries := 0; tries < 50; tries++ {
@@ -730,6 +771,7 @@ func genInsert(r *Rng, sc *ATSchema, taken map[string]bool, o ATGenOpts) *ATStmt
 func genUpsert(r *Rng, sc *ATSchema, existing [][]ATVal, taken map[string]bool) *ATStmt {
 	st := genInsert(r, sc, taken, ATGenOpts{})
 	st.Kind = 'Y'
+	st.AutoForm = 0 // an upsert names its keys
 	nNew, nOld := 0, 0
 	for ri := range st.Rows {
 		if len(existing) > 0 && r.Chance(50) {
